@@ -15,7 +15,7 @@ func init() {
 		ID:    "C03",
 		Title: "Best match: literals beat variables, independent of registration order",
 		Decided: "C03.a each comparator used to rank candidates is, over all 3^m order relations between its m keys, exactly a lexicographic comparison with one fixed direction per key and 'false' when all keys are equal (hence a strict weak order), its primary key for route candidates is the literal measure ordered so that more literal comes first (taking sort.Reverse at the call site into account), and the route comparators end in a strict comparison of Route.Path (a total tie-break, which makes the sorted order independent of registration order for distinct templates); " +
-			"C03.d a mux registration is suppressed only by whole-pattern equality (reachability independent of Add order); C03.e the counters returned by a token matcher classify each segment once; C03.f inside a candidate-collecting loop no branch reads a variable carried from one iteration to the next; C03.b the candidates are sorted after the last candidate was added and before they are handed on, and the stage function returns element 0 of its final, order-preserving list; C03.c in the root-path scorer every literal token adds strictly more than any variable token and all increments are positive, the best root is replaced only on a strictly greater score, and the scan over the services runs to exhaustion. After a candidate was added, no element of the collection is read outside the adding loop on a path that skipped sort.Sort, unless fewer than two candidates exist. Between the sort and the selection the functions the selectors reach only filter: no append joins two lists of candidates unless the first is empty.",
+			"C03.d a mux registration is suppressed only by whole-pattern equality (reachability independent of Add order); C03.e the counters returned by a token matcher classify each segment once; C03.g a function that takes routes of the service's table into a candidate collection sorts that collection; C03.f inside a candidate-collecting loop no branch reads a variable carried from one iteration to the next; C03.b the candidates are sorted after the last candidate was added and before they are handed on, and the stage function returns element 0 of its final, order-preserving list; C03.c in the root-path scorer every literal token adds strictly more than any variable token and all increments are positive, the best root is replaced only on a strictly greater score, and the scan over the services runs to exhaustion. After a candidate was added, no element of the collection is read outside the adding loop on a path that skipped sort.Sort, unless fewer than two candidates exist. Between the sort and the selection the functions the selectors reach only filter: no append joins two lists of candidates unless the first is empty.",
 		NotDecided: "that the counts (static, literal, parameter) are computed correctly per template; the full 'never less specific' relation over arbitrary overlapping templates; stability issues of sort.Sort beyond totality of the order.",
 		Rules: []Rule{
 			{ID: "C03.a", Template: "T-CMP", Required: true, Run: ruleC03a,
@@ -26,6 +26,8 @@ func init() {
 				Doc: "Root score monotonicity: a literal and a variable root must not tie, and every service must be considered."},
 			{ID: "C03.d", Template: "T-SIBLING", Required: true, Run: ruleC11c,
 				Doc: "Which WebServices are reachable through the ServeMux must not depend on the order they were added: a mux registration is suppressed only by whole equality of the registered pattern with the pattern, computed the same way, of an already registered service. A prefix test drops the entry of /pq when /p was added first and keeps it otherwise."},
+			{ID: "C03.g", Template: "T-ORDER", Required: true, Run: ruleCandidatesRanked,
+				Doc: "The candidates a selector takes from the service's route table are ranked as a whole before they are handed on: the collecting function sorts the collection. Moving only the best candidate to the front leaves the rest in registration order, and the first survivor of the method and media stage then depends on it."},
 			{ID: "C03.f", Template: "T-EFFECT", Required: true, Run: ruleCandidateLoopStateless,
 				Doc: "Candidates are admitted one by one: inside a loop that collects route candidates no branch is decided by a variable carried over from earlier iterations (a 'seen an all-literal route' flag, a counter). Such memory makes the candidate set, and with it the outcome, depend on the order the routes were registered in."},
 			{ID: "C03.e", Template: "T-ENFORCE", Required: false, Run: ruleC03e,
